@@ -55,6 +55,67 @@ open Dispatcher DispatchScript in
 structure Sess where
   disp : Dispatcher.St DispatchScript.ScriptSt := ⟨none, none, false, ⟨[]⟩⟩
   strm : Stream.FState Nat := { ds := 0 }
+  tabs : List Tables := []
+  insts : List (String × String × Proto.Inst) := []      -- instance id, protocol name, state
+
+/-! ### engine ops -/
+
+def parseIntList (s : String) : Option (List Int) :=
+  if s == "-" then some [] else (s.splitOn ",").mapM (·.toInt?)
+
+def parsePairs (s : String) : Option (List (Int × Int)) :=
+  if s == "-" then some [] else
+    (s.splitOn ",").mapM fun p => match p.splitOn ":" with
+      | [a, b] => do let a ← a.toInt?; let b ← b.toInt?; pure (a, b)
+      | _ => none
+
+def parseTriples (s : String) : Option (List (String × Nat × Nat)) :=
+  if s == "-" then some [] else
+    (s.splitOn ",").mapM fun p => match p.splitOn ":" with
+      | [n, a, b] => do let a ← a.toNat?; let b ← b.toNat?; pure (n, a, b)
+      | _ => none
+
+def parseDoubles (s : String) : Option (List (String × Nat)) :=
+  if s == "-" then some [] else
+    (s.splitOn ",").mapM fun p => match p.splitOn ":" with
+      | [n, a] => do let a ← a.toNat?; pure (n, a)
+      | _ => none
+
+def kv (ws : List String) (k : String) : Option String :=
+  (ws.find? (fun w => w.startsWith (k ++ "="))).map (fun w => (w.drop (k.length + 1)).toString)
+
+def parseTable (name : String) (ws : List String) : Option Tables := do
+  let freq ← (← kv ws "freq").toNat?
+  let bits ← (← kv ws "bits").toNat?
+  let order := if (← kv ws "order") == "msb" then Bits.Order.msb else Bits.Order.lsb
+  let mid ← (← kv ws "mid").toNat?
+  let decov ← (← kv ws "decov").toNat?
+  let rt ← (← kv ws "rt").toNat?
+  let li ← parseIntList (← kv ws "li")
+  let lo ← parseIntList (← kv ws "lo")
+  let b ← parsePairs (← kv ws "b")
+  let rli ← parseIntList (← kv ws "rli")
+  let rlo ← parseIntList (← kv ws "rlo")
+  let rb ← parsePairs (← kv ws "rb")
+  let params ← parseTriples (← kv ws "params")
+  let co ← parseDoubles (← kv ws "co")
+  let ep ← parseTriples (← kv ws "ep")
+  pure { name := name, frequency := freq, bitCount := bits, order := order, shape := .pairs, leadIn := li, leadOut := lo,
+         bursts := b, hasMiddle := mid != 0, repeatLeadIn := rli, repeatLeadOut := rlo, repeatBursts := rb,
+         params := params, codeOrder := co, encodeParams := ep, repeatTimeout := rt, decodeOverridden := decov != 0 }
+
+def findTab (ss : Sess) (n : String) : Option Tables := ss.tabs.find? (·.name == n)
+
+def parseItem (w : String) : Option Encode.Item :=
+  match w.splitOn ":" with
+  | ["f", v, wd] => do let v ← v.toNat?; let wd ← wd.toNat?; pure (.field v wd)
+  | ["l", ds] => (parseIntList ds).map .lit
+  | _ => none
+
+def showNats (l : List Nat) : String := "".intercalate (l.map toString)
+
+def showCodeV (c : Proto.CodeV) : String :=
+  s!"fields={",".intercalate (c.fields.map fun (n, v) => s!"{n}:{v}")} frame={showInts c.frame}"
 
 open Dispatcher DispatchScript Match
 
@@ -151,6 +212,57 @@ def step (ss : Sess) (line : String) : Sess × String :=
       let st' := Dispatcher.release ss.disp c
       ({ ss with disp := st' }, s!"ok ; {dispState st'}")
     | none => (ss, s!"ok ; {dispState ss.disp}")
+  -- engine
+  | "tbl" :: name :: ws =>
+    match parseTable name ws with
+    | some t => ({ ss with tabs := t :: ss.tabs.filter (·.name != name) }, "ok")
+    | none => (ss, "bad-op")
+  | "build" :: name :: ws =>
+    match findTab ss name, ws.mapM parseItem with
+    | some t, some items =>
+      match Encode.buildPacket t items with
+      | .ok l => (ss, "ok " ++ showInts l)
+      | .error e => (ss, "err " ++ e.name)
+    | _, _ => (ss, "bad-op")
+  | ["buildrep", name] =>
+    match findTab ss name with
+    | some t => match Encode.buildRepeatFrame t with
+      | .ok l => (ss, "ok " ++ showInts l)
+      | .error e => (ss, "err " ++ e.name)
+    | none => (ss, "bad-op")
+  | "parse" :: name :: tn :: td :: ws =>
+    match findTab ss name, tn.toNat?, td.toNat?, parseInts ws with
+    | some t, some tn, some td, some data =>
+      if CodeWrapper.supported t then
+        match CodeWrapper.parse t ⟨tn, td⟩ data with
+        | .ok p => (ss, s!"ok bits={showNats p.bits} clean={showInts p.cleaned}")
+        | .error e => (ss, "err " ++ e.name)
+      else (ss, "unsupported")
+    | _, _, _, _ => (ss, "bad-op")
+  | ["inew", iid, name] =>
+    match findTab ss name with
+    | some _ => ({ ss with insts := (iid, name, {}) :: ss.insts.filter (·.1 != iid) }, "ok")
+    | none => (ss, "bad-op")
+  | ["itol", iid, tn, td] =>
+    match ss.insts.find? (·.1 == iid), tn.toNat?, td.toNat? with
+    | some (_, name, inst), some tn, some td =>
+      ({ ss with insts := (iid, name, { inst with tol := ⟨tn, td⟩ }) :: ss.insts.filter (·.1 != iid) }, "ok")
+    | _, _, _ => (ss, "bad-op")
+  | "idecode" :: iid :: ws =>
+    match ss.insts.find? (·.1 == iid), parseInts ws with
+    | some (_, name, inst), some data =>
+      match findTab ss name with
+      | some t =>
+        if CodeWrapper.supported t && (t.repeatBursts.isEmpty || CodeWrapper.streamEnc t.repeatBursts == .general) then
+          let r := Proto.baseDecode t inst data
+          let ss' := { ss with insts := (iid, name, r.inst) :: ss.insts.filter (·.1 != iid) }
+          let tail := s!" islast={r.isLast} stops={r.effects.length} held={match r.inst.last with | some c => showCodeV c | none => "-"}"
+          match r.result with
+          | .ok c => (ss', "ok " ++ showCodeV c ++ tail)
+          | .error e => (ss', "err " ++ e.name ++ tail)
+        else (ss, "unsupported")
+      | none => (ss, "bad-op")
+    | _, _ => (ss, "bad-op")
   -- streaming thread, fine-grained machine with the scripted dispatcher
   | ["st_new"] => ({ ss with strm := { ds := 0 } }, "ok")
   | "st_fpush" :: f :: ws =>
